@@ -227,7 +227,7 @@ def run_case(case, S, c, symkey=None, eng=None):
         if t.shape != (len(interface), npat): return f'tests() shape {t.shape}'
         for i in range(len(interface)):
             for p in range(npat):
-                if not same_mod_unknown(t[i, p], tests[i][p]): return f'tests(): {interface[i].name} pattern {p} = {int(t[i, p])}, STIL semantics give {tests[i][p]}'
+                if int(t[i, p]) != int(tests[i][p]): return f'tests(): {interface[i].name} pattern {p} = {int(t[i, p])}, STIL semantics give {tests[i][p]} (stimuli are compared exactly: unknown and unassigned are not inverted)'
     if r.shape != (len(interface), npat): return f'responses() shape {r.shape}'
     for i in range(len(interface)):
         for p in range(npat):
